@@ -123,10 +123,20 @@ def c01(r):
         for (x, t, rid) in c['released']:
             ex_before = collections.Counter(executing(c, 'before'))
             ob = c['after']
+            # a job the farm kept after the database refused a run id: its
+            # targets left todo at an EARLIER dispatch (safely, C01_release_faults);
+            # this dispatch only turns the kept `do` set into messages
+            bf = c['before']
+            kept = bool(bf) and x in bf['jobs'] and t in bf['nodes'][x][2]
             for a in W.anc[x]:
                 todo, doing = ob['nodes'][a][0], ob['nodes'][a][1]
                 pend = set(todo) | set(doing)
                 if t in pend or 0 in pend or (t == 0 and pend):
+                    if kept:
+                        out.append(('kept-job-sent-while-ancestor-pending', {'cause': 'refused-runid'},
+                                    'unit (%s,%s), kept by the farm after a refused run id, is sent while upstream %s has %s pending/doing'
+                                    % (W.g['tags'][x], W.g['tnames'][t], W.g['tags'][a], sorted(pend)), c['i']))
+                        continue
                     out.append(('release-while-ancestor-pending', {'cause': 'doing-level'},
                                 'unit (%s,%s) released while upstream %s has %s pending/doing'
                                 % (W.g['tags'][x], W.g['tnames'][t], W.g['tags'][a], sorted(pend)), c['i']))
@@ -337,7 +347,13 @@ def c11(r):
             # earlier dispatch (they are not `released` again, they still need one)
             need_fresh |= {x for x in bf['jobs'] if bf['nodes'][x][4] is None and bf['nodes'][x][2]} \
                 | {x for x in bf['jobs'] if bf['nodes'][x][4] is None and W.fac[x] == 1}
-            if bool(nexts) != bool(need_fresh) or len(nexts) != len(need_fresh):
+            # a kept job that was released again before the retry sits on the
+            # farm's list twice (list.remove takes out one copy; SchedFault.rem1)
+            # and a job that does not keep its run id (regression) asks once per
+            # copy: between one request per job and one per list entry
+            entries = [x for x in bf['jobs'] if bf['nodes'][x][4] is None] + \
+                sorted({x for (x, t, rid) in c['released'] if bf['nodes'][x][4] is None})
+            if bool(nexts) != bool(need_fresh) or not len(need_fresh) <= len(nexts) <= max(len(entries), len(need_fresh)):
                 out.append(('fields', {'field': 'runid'}, 'db.next() consulted %d times for %d jobs without run id' % (len(nexts), len(need_fresh)), c['i']))
             if not active_before and (ob['outs'] or ob != dict(bf, outs=ob['outs'])):
                 pass
